@@ -104,6 +104,10 @@ def items(tier, seed):
             n = 12 if tier == "quick" else 30
             out.append(("instant", st.isoformat(), dt, n, n))
             out.append(("instant", st.isoformat(), dt, n, n // 2))
+            # every configured timestamp written with a UTC offset other than Z: the library reads the wall-clock
+            # fields of all of them alike, so delivery and effect must be exactly those of the Z-designated configuration
+            out.append(("instant", st.isoformat(), dt, n, n + 1, "+02:00"))
+            out.append(("instant", st.isoformat(), dt, n, n + 1, "-05:30"))
     est_starts = _starts(tier, seed)[: (4 if tier == "quick" else 12)] + _starts(tier, seed)[-1:]
     for st in est_starts:
         for dt in ([60, 300] if tier == "quick" else [30, 60, 300]):
@@ -281,6 +285,14 @@ def _run_instant(res, item):
     engines = [scen.engine(1, tg[:2], [scen.ground_sensor(20001, 10.0, 20.0)]),
                scen.engine(2, tg[2:], [scen.ground_sensor(20002, -15.0, 100.0)])]
     cfg = scen.config(st, span, engines, physics=dt, truth_only=True, events=[_event_cfg(e, st) for e in evs])
+    offset = item[5] if len(item) > 5 else None
+    if offset:
+        for k in ("start_timestamp", "stop_timestamp"):
+            cfg["time"][k] = cfg["time"][k].replace("Z", offset)
+        for ev in cfg["events"]:
+            for k in ("start_time", "end_time"):
+                if isinstance(ev.get(k), str):
+                    ev[k] = ev[k].replace("Z", offset)
     del _LOG[:]
     sc = scen.build(cfg)
     membership = []
@@ -295,7 +307,8 @@ def _run_instant(res, item):
         membership.append((set(sc.target_agents), set(sc.sensor_agents),
                            {e: set(sc.tasking_engines[e].target_list) for e in (1, 2)},
                            {e: set(sc.tasking_engines[e].sensor_list) for e in (1, 2)}))
-    base_case = {"family": "instant", "start": iso, "start_second": st.second, "dt": dt, "configured_span_steps": span, "run_steps": n}
+    base_case = {"family": "instant", "start": iso, "start_second": st.second, "dt": dt, "configured_span_steps": span, "run_steps": n,
+                 "utc_offset_in_config": offset or "Z"}
     if err:
         res.violate("instant/run", base_case, signature="C01/instant/run_error", observed=err, item=item)
     steps_run = len(membership)
